@@ -5,6 +5,7 @@ import (
 	"go/ast"
 	"go/parser"
 	"go/token"
+	"strings"
 
 	"github.com/uber-go/gopatch/internal/parse"
 	"github.com/uber-go/gopatch/internal/zzverif/nd"
@@ -18,6 +19,7 @@ const (
 	c10Metavar // name is the identifier metavariable "mv"
 	c10Dot
 	c10Blank
+	c10NamedBase // literal name equal to the last element of the path ("b" for "a/b")
 )
 
 func c10PatchImport(form int, path string) string {
@@ -32,6 +34,8 @@ func c10PatchImport(form int, path string) string {
 		return fmt.Sprintf(" import . %q\n", path)
 	case c10Blank:
 		return fmt.Sprintf(" import _ %q\n", path)
+	case c10NamedBase:
+		return fmt.Sprintf(" import %s %q\n", path[strings.LastIndex(path, "/")+1:], path)
 	}
 	return ""
 }
@@ -41,7 +45,7 @@ func c10PatchImport(form int, path string) string {
 // stated form, and the code pattern occurs in it (the callee's name is symbolic).
 func VerifC10Guards() {
 	withPkg := nd.Choose("patchpkg", 2) == 1
-	form1 := nd.Choose("form1", 6)
+	form1 := nd.Choose("form1", 7)
 	form2 := c10Absent
 	if nd.Param("TWO", 0) == 1 {
 		form2 = nd.Choose("form2", 3) // absent | unnamed | metavar-named second import
@@ -189,6 +193,11 @@ func VerifC10Guards() {
 				return false
 			}
 			return nd.StrEq(id.Name, "_")
+		case c10NamedBase: // a literal name matches that name only, never an unnamed import
+			if !present || id == nil {
+				return false
+			}
+			return nd.StrEq(id.Name, "b")
 		}
 		return false
 	}
